@@ -18,14 +18,14 @@
 //!        M<n> set the pool maximum to n at once (possibly while scheduling calls are in flight); when lowering, despawn_threads_if_overloaded must return
 //!        m<n> wait until nothing is queued, running or busy, then set the maximum to n (a change 'between phases'): afterwards at most n pool threads
 //!        B<n> a Desync<u64> (no drop glue) with n queued operations is dropped: the drop must wait for all of them
-//! Body:  t touch | c yield co-operatively (wake the own waker, return Pending once) | o<e>-<e2> await event e or e2, whichever fires first (the other keeps a stale waker)
+//! Body:  t touch | x wake the own waker and panic in the same poll (future bodies) | c yield co-operatively (wake the own waker, return Pending once) | o<e>-<e2> await event e or e2, whichever fires first (the other keeps a stale waker)
 //!        | w<e> await event (future bodies) | a<e>-<e2> await event e and fire e2 once the waker is registered | g<g> block on gate | p panic | s<e> fire event | (op) nested op
 
 #[derive(Clone, Debug, PartialEq)]
 pub enum Mode { Detach, Await, SyncWait, PollDrop(usize), PollDropLate(usize, usize), Inline }
 
 #[derive(Clone, Debug, PartialEq)]
-pub enum Prim { Touch, AwaitEv(usize), AwaitEvSig(usize, usize), CoopYield, AwaitEither(usize, usize), Gate(usize), Panic, Signal(usize), Nested(Box<Op>) }
+pub enum Prim { Touch, AwaitEv(usize), AwaitEvSig(usize, usize), CoopYield, AwaitEither(usize, usize), WakePanic, Gate(usize), Panic, Signal(usize), Nested(Box<Op>) }
 
 #[derive(Clone, Debug, PartialEq)]
 pub enum Op {
@@ -84,6 +84,7 @@ fn fmt_body(b: &Vec<Prim>) -> String {
             Prim::AwaitEv(e) => s.push_str(&format!("w{}", e)),
             Prim::AwaitEvSig(e, e2) => s.push_str(&format!("a{}-{}", e, e2)),
             Prim::CoopYield => s.push('c'),
+            Prim::WakePanic => s.push('x'),
             Prim::AwaitEither(e, e2) => s.push_str(&format!("o{}-{}", e, e2)),
             Prim::Gate(g) => s.push_str(&format!("g{}", g)),
             Prim::Panic => s.push('p'),
@@ -188,6 +189,7 @@ fn parse_body(cs: &[char], i: &mut usize) -> Result<Vec<Prim>, String> {
             'a' => { let e = parse_num(cs, i)?; expect_ch(cs, i, '-')?; b.push(Prim::AwaitEvSig(e, parse_num(cs, i)?)) }
             'g' => b.push(Prim::Gate(parse_num(cs, i)?)),
             'c' => b.push(Prim::CoopYield),
+            'x' => b.push(Prim::WakePanic),
             'o' => { let e = parse_num(cs, i)?; expect_ch(cs, i, '-')?; b.push(Prim::AwaitEither(e, parse_num(cs, i)?)) }
             '(' => { let o = parse_op(cs, i)?; if *i >= cs.len() || cs[*i] != ')' { return Err(") expected".into()); } *i += 1; b.push(Prim::Nested(Box::new(o))); }
             _ => return Err(format!("bad prim {}", c))
@@ -276,7 +278,7 @@ pub const P_GATE: Profile = Profile { name: "gate", nq: (2, 3), callers: (2, 3),
 /// the healthy objects 1.. must stay fully usable. Ordering constraints are scripted with events, fine interleaving is left open.
 pub fn generate_panic(r: &mut Rng) -> Program {
     // contexts 5 and 6: the operation that panics is the future of a future_sync, which runs on the task polling the returned future
-    let ctx7 = r.below(7);
+    let ctx7 = r.below(10);
     let ctxk = if ctx7 >= 5 { ctx7 - 5 + 10 } else { ctx7 };
     let pool = 1 + r.below(3);
     // context 4 parks EVERY pool thread on a gate, one gated job per object (objects 1..=pool), so that only callers can run object 0
@@ -294,6 +296,12 @@ pub fn generate_panic(r: &mut Rng) -> Program {
         3 => { c0.push(Op::FutDesync(0, vec![Prim::Touch, Prim::AwaitEv(0), Prim::Panic], Mode::Detach)); c0.push(Op::Fire(0)); nev = 1; }  // after a suspension
         10 => { c0.push(Op::FutSync(0, vec![Prim::Touch, Prim::Panic], Mode::Await)); }                   // future_sync: its future panics at once, on the polling task
         11 => { c0.push(Op::FutSync(0, vec![Prim::Touch, Prim::AwaitEv(0), Prim::Touch, Prim::Panic], Mode::Await)); nev = 1; others.push(vec![Op::Yield(5), Op::Fire(0)]); }  // ... after a suspension
+        12 => { c0.push(Op::FutDesync(0, vec![Prim::Touch, Prim::WakePanic], if r.chance(1, 2) { Mode::Detach } else { Mode::Await })); }    // woken during the very poll in which it panics
+        13 => { c0.push(Op::FutDesync(0, vec![Prim::Touch, Prim::CoopYield, Prim::WakePanic], Mode::Detach)); c0.push(Op::Sync(0, vec![Prim::Touch])); }   // ... polled by a sync caller
+        14 => {     // other threads hammer the object with try_sync while the panic unwinds (they hold its queue lock again and again)
+            c0.push(Op::Desync(0, vec![Prim::Touch, Prim::Touch, Prim::Panic]));
+            for _ in 0..3 { others.push((0..40).map(|_| Op::TrySync(0, vec![])).collect()); }
+        }
         _ => {
             // drain / steal: a sync caller holds object 0 while the panicking job is queued behind it; a second sync caller arrives
             // after that and is the one that runs it (by draining a Pending queue, or by stealing it when it is notified)
